@@ -243,7 +243,7 @@ impl Oracle {
             let want: Result<String, String> = if *op == "ue" { ue(rest).map(|(v, n)| { pos += n; v.to_string() }) }
                 else if *op == "se" { ue(rest).map(|(k, n)| { pos += n; let m = ((k + 1) / 2) as i64; (if k % 2 == 1 { m } else { -m }).to_string() }) }
                 else if *op == "b" { if rest.is_empty() { Err("Io(f,Eof)".into()) } else { pos += 1; Ok(rest[0].to_string()) } }
-                else if *op == "more" { if rest.is_empty() { Err("Io(f,Eof)".into()) } else { Ok(rest[1..].iter().any(|b| *b).to_string()) } }
+                else if *op == "more" { Ok(rest.iter().skip(1).any(|b| *b).to_string()) }
                 else if *op == "finish" { dead = true; if rest.is_empty() { Err("Io(finish,Eof)".into()) } else if rest[1..].iter().any(|b| *b) { Err("Remaining".into()) } else if rest[0] { Ok("ok".into()) } else { Err("Io(finish,Eof)".into()) } }
                 else if *op == "seifinish" { dead = true; if rest.is_empty() { Ok("ok".into()) } else if rest[0] && !rest[1..].iter().any(|b| *b) { Ok("ok".into()) } else { Err("Remaining".into()) } }
                 else if let Some(n) = op.strip_prefix("skip") { let n: usize = n.parse().unwrap(); if rest.len() < n { Err("Io(f,Eof)".into()) } else { pos += n; Ok("ok".into()) } }
@@ -292,6 +292,15 @@ impl Oracle {
         }
         for _ in 0..3 { want.push("end".into()); }
         let w = want.join(" ");
+        if !valid {
+            // a forbidden sequence may be reported before bytes that precede it have been handed out (the scanner examines
+            // a whole window first): any prefix of the expected messages, then an InvalidData error, then the end
+            let got: Vec<&str> = obs.split(' ').collect();
+            let k = got.iter().take_while(|g| g.starts_with("msg:")).count();
+            let ok = got[..k].iter().zip(want.iter()).all(|(a, b)| a == b) && k < want.len()
+                && got.len() == k + 4 && got[k].starts_with("err:Io(") && got[k].ends_with(",InvalidData)") && got[k + 1..].iter().all(|g| *g == "end");
+            return if ok { "ok".into() } else { format!("FAIL reader gave [{}] for a NAL with a forbidden sequence; expected a prefix of [{}] then InvalidData", obs, w) };
+        }
         if obs == w { "ok".into() } else { format!("FAIL reader gave [{}] expected [{}]", obs, w) }
     }
 }
